@@ -650,8 +650,9 @@ Inductive tdepth_le : nat -> list fld -> Prop :=
 | TD k fs :
     (forall num cls oneof isnull children c, In (Known num cls oneof isnull children) fs -> cls <> CMap ->
        In c children -> tdepth_le k c) ->
-    (forall num oneof isnull children, In (Known num CMap oneof isnull children) fs ->
-       1 <= k /\ forall c, In c children -> tdepth_le (Nat.pred k) c) ->
+    (forall num oneof isnull children, In (Known num CMap oneof isnull children) fs -> 1 <= k) ->
+    (forall num oneof isnull children c, In (Known num CMap oneof isnull children) fs ->
+       In c children -> tdepth_le (Nat.pred k) c) ->
     (forall r d, In (Unknown r d) fs -> d <= k) ->
     tdepth_le (S k) fs.
 
@@ -665,8 +666,10 @@ Proof.
     + destruct OK as (_ & _ & K & _). apply IH; [lia|]. exact (K _ IC).
     + apply IH; [lia|]. exact (OK _ IC).
   - intros num oneof isnull children I. destruct (A _ I) as (s & so & s' & so' & OK).
+    cbn [tstep_ok] in OK. lia.
+  - intros num oneof isnull children c I IC. destruct (A _ I) as (s & so & s' & so' & OK).
     cbn [tstep_ok] in OK. destruct OK as (NZ & K). destruct rem' as [|r'']; [congruence|].
-    split; [lia|]. intros c IC. cbn [Nat.pred]. apply IH; [lia|]. exact (K _ IC).
+    cbn [Nat.pred]. apply IH; [lia|]. exact (K _ IC).
   - intros r d I. destruct (A _ I) as (s & so & s' & so' & OK). cbn [tstep_ok] in OK. tauto.
 Qed.
 
@@ -734,3 +737,38 @@ Proof.
   - destruct e1 as [| |c1], e2 as [| |c2], e3 as [| |c3]; cbn in A; try discriminate;
       try (destruct c1; discriminate); try (destruct c2; discriminate); try (destruct c3; discriminate).
 Qed.
+
+(* ---------------------------------------------------------------- numeric nesting *)
+Lemma list_max_map_le {A} (f : A -> nat) l n : (forall x, In x l -> f x <= n) -> list_max (map f l) <= n.
+Proof.
+  intros H. apply list_max_le. apply Forall_forall. intros k I. apply in_map_iff in I.
+  destruct I as (x & <- & I). auto.
+Qed.
+
+Lemma jdepth_le_depth k fs : jdepth_le k fs -> depth_j fs <= k.
+Proof.
+  induction 1 as [k fs HK IH HU HS]. unfold depth_j. apply le_n_S. apply list_max_map_le.
+  intros f I. destruct f as [num cls oneof isnull children|r d|d|]; cbn [fdepth_j].
+  - destruct isnull; [lia|]. apply list_max_map_le. intros c IC.
+    exact (IH _ _ _ _ _ I IC).
+  - eauto.
+  - eauto.
+  - lia.
+Qed.
+
+Theorem j_depth_bounded_num discard rem fs : jmsg discard rem fs = Accept -> depth_j fs <= rem.
+Proof. intros A. apply jdepth_le_depth. now apply j_depth_bounded with (discard := discard). Qed.
+
+Lemma tdepth_le_depth k fs : tdepth_le k fs -> depth_t fs <= k.
+Proof.
+  induction 1 as [k fs HK IHK HM1 HM IHM HU]. unfold depth_t. apply le_n_S. apply list_max_map_le.
+  intros f I. destruct f as [num cls oneof isnull children|r d|d|]; cbn [fdepth_t]; try lia; [|eauto].
+  destruct cls.
+  - apply list_max_map_le. intros c IC. apply (IHK _ _ _ _ _ _ I); [discriminate|assumption].
+  - apply list_max_map_le. intros c IC. apply (IHK _ _ _ _ _ _ I); [discriminate|assumption].
+  - pose proof (HM1 _ _ _ _ I) as K1. destruct k as [|k0]; [lia|]. apply le_n_S.
+    apply list_max_map_le. intros c IC. exact (IHM _ _ _ _ _ I IC).
+Qed.
+
+Theorem t_depth_bounded_num discard rem fs : tmsg discard rem fs = Accept -> depth_t fs <= rem.
+Proof. intros A. apply tdepth_le_depth. now apply t_depth_bounded with (discard := discard). Qed.
